@@ -287,15 +287,16 @@ theorem setFirstUnit_idem (u : Str) (l : List OItem) : setFirstUnit u (setFirstU
 theorem sssValues_stop {sd : Option F64} {x : F64} {xs : List F64} {s e p : PVal}
     (h : sssValues sd (some (x :: xs)) = some (s, e, p)) :
     s = .str (fmt5 x) ∧ e = .str (fmt5 (xs.getLastD x)) := by
-  unfold sssValues at h
-  simp only [List.getLastD_eq_getLast?] at h ⊢
-  split at h
-  · split at h
-    · simp at h; exact ⟨h.1.symm, h.2.1.symm⟩
-    · split at h
-      · simp at h; exact ⟨h.1.symm, h.2.1.symm⟩
-      · simp at h
-  · simp at h; exact ⟨h.1.symm, h.2.1.symm⟩
+  cases xs with
+  | nil =>
+    simp [sssValues] at h
+    exact ⟨h.1.symm, by simpa using h.2.1.symm⟩
+  | cons y ys =>
+    cases sd with
+    | none => simp [sssValues] at h
+    | some d =>
+      simp only [sssValues, Option.some.injEq, Prod.mk.injEq] at h
+      exact ⟨h.1.symm, h.2.1.symm⟩
 
 theorem arrayEqual_nonempty {ii idx : List F64} (h : arrayEqual ii idx = true) (hne : ii ≠ []) : idx ≠ [] := by
   cases ii with
@@ -491,25 +492,17 @@ theorem C16_idempotent {cfg : WriteCfg} {sd : Option F64} {o : WObj} {t1 : List 
 
 theorem sssValues_step {sd : Option F64} {x : F64} {xs : List F64} {s e p : PVal}
     (h : sssValues sd (some (x :: xs)) = some (s, e, p)) :
-    (fmt5 (xs.getLastD x) ≠ fmt5 x → ∃ dlt, sd = some dlt ∧ p = .str (fmt5 dlt)) ∧
-    (fmt5 (xs.getLastD x) = fmt5 x → p = .none) := by
-  unfold sssValues at h
-  simp only at h
-  split at h
-  · rename_i hne
-    have hne' : fmt5 (xs.getLastD x) ≠ fmt5 x := by simpa using hne
-    refine ⟨fun _ => ?_, fun heq => absurd heq hne'⟩
-    split at h
-    · exact absurd rfl hne'
-    · split at h
-      · rename_i dlt
-        simp at h
-        exact ⟨dlt, rfl, h.2.2.symm⟩
-      · simp at h
-  · rename_i heq
-    have heq' : fmt5 (xs.getLastD x) = fmt5 x := by simpa using heq
-    simp at h
-    exact ⟨fun hne => absurd heq' hne, fun _ => h.2.2.symm⟩
+    (xs ≠ [] → ∃ dlt, sd = some dlt ∧ p = .str (fmt5 dlt)) ∧ (xs = [] → p = .none) := by
+  cases xs with
+  | nil =>
+    simp [sssValues] at h
+    exact ⟨fun hne => absurd rfl hne, fun _ => h.2.2.symm⟩
+  | cons y ys =>
+    cases sd with
+    | none => simp [sssValues] at h
+    | some d =>
+      simp only [sssValues, Option.some.injEq, Prod.mk.injEq] at h
+      exact ⟨fun _ => ⟨d, rfl, h.2.2.symm⟩, fun hnil => by cases hnil⟩
 
 theorem wellItem_at_a {s e p : PVal} {u : Str} {a b c : Nat} (x : OItem) (hab : a ≠ b) (hac : a ≠ c) :
     (wellItem true s e p u a b c a x).value = stdP s u := by
@@ -544,17 +537,18 @@ theorem C16_units {cfg : WriteCfg} {sd : Option F64} {o : WObj} {t : List Str} {
     rw [← hc0]
 
 /-- **Truth.**  Whenever the refresh is decided (`C16_refresh_iff`) and the index is not empty, the object written holds:
-STRT = `'%.5f' % index[0]`, STOP = `'%.5f' % index[-1]` (as `str`), and STEP = `'%.5f' % (index[1] - index[0])` when the two
-strings differ; when they are equal — a single sample, but also ANY index whose last value prints like its first —
-STEP is `None`, written as `0` (unit present) or as the empty string. -/
+STRT = `'%.5f' % index[0]`, STOP = `'%.5f' % index[-1]` (as `str`), and STEP = `'%.5f' % (index[1] - index[0])` as soon as the
+index has two samples — whatever the two printed ends look like (before the repair of las.py:600 an index whose last value
+printed like its first lost its STEP: `C16_counterexample_old_step_guard`); for a single sample STEP is `None`, written as
+`0` (unit present) or as the empty string. -/
 theorem C16_truth {cfg : WriteCfg} {sd : Option F64} {o : WObj} {t : List Str} {o' : WObj}
     (h : writeObj cfg sd o = .ok (t, o')) (hd : refreshDecision o = .ok true)
     (x : F64) (xs : List F64) (hidx : o.index = some (x :: xs)) :
     ∃ strt stop step, lookup o'.wellTr sSTRT o'.well = some strt ∧ lookup o'.wellTr sSTOP o'.well = some stop ∧
       lookup o'.wellTr sSTEP o'.well = some step ∧
       strt.value = .str (fmt5 x) ∧ stop.value = .str (fmt5 (xs.getLastD x)) ∧
-      (fmt5 (xs.getLastD x) ≠ fmt5 x → ∃ dlt, sd = some dlt ∧ step.value = .str (fmt5 dlt)) ∧
-      (fmt5 (xs.getLastD x) = fmt5 x → step.value = stdP .none step.unit) := by
+      (xs ≠ [] → ∃ dlt, sd = some dlt ∧ step.value = .str (fmt5 dlt)) ∧
+      (xs = [] → step.value = stdP .none step.unit) := by
   obtain ⟨d, a, b, c, s, e, p, u, hd', ha, hb, hc, hv, hu, rfl⟩ := C16_closed_form h
   rw [hd] at hd'; cases hd'
   have hs := hv rfl
@@ -643,11 +637,19 @@ example : ∃ t o1, writeObj exCfg (some exOne) exObj = .ok (t, o1) ∧ writeObj
   | error e => rw [h] at hok; simp [Except.toOption] at hok
   | ok r => exact ⟨r.1, r.2, rfl, C16_idempotent (by intro w hw; cases hw) h⟩
 
-/-- the index that returns to its start: STEP is dropped although the first increment is 1 (reported finding) -/
+/-- the index that returns to its start keeps its STEP (the input of the repaired finding) -/
 example :
     (writeObj exCfg (some exOne) { exObj with data := [[exOne, .finite false 2 0, exOne]] }).toOption.map
         (fun r => (r.2.well.map (·.value)).take 3) =
-      some [.str "1.00000".toList, .str "1.00000".toList, PVal.intZero] := by
+      some [.str "1.00000".toList, .str "1.00000".toList, .str "1.00000".toList] := by
+  decide
+
+/-- the guard before the repair (`if STOP != STRT` on the formatted strings) dropped the step of that index -/
+theorem C16_counterexample_old_step_guard :
+    sssValuesOld (some exOne) (some [exOne, .finite false 2 0, exOne]) =
+      some (.str "1.00000".toList, .str "1.00000".toList, .none) ∧
+    sssValues (some exOne) (some [exOne, .finite false 2 0, exOne]) =
+      some (.str "1.00000".toList, .str "1.00000".toList, .str "1.00000".toList) := by
   decide
 
 example : (refreshDecision exObj).toOption = some true := by decide
